@@ -137,6 +137,7 @@ def class_instance(d, path, combo, new_name=None):
     rec['enum'] = [m['n'] for m in d['m'] if m['k'] == 'enum']
     rec['enum_full'] = [{'n': m['n'], 'e': list(m['e'])} for m in d['m'] if m['k'] == 'enum']
     rec['dunder'] = [m['n'] for m in d['m'] if m['k'] == 'dunder']
+    rec['dunder_args'] = [{'n': m['n'], 'a': _args(m['a'], env, this)} for m in d['m'] if m['k'] == 'dunder']
     return rec
 
 
@@ -293,6 +294,7 @@ def observe_scope(ns):
             rec['enum'] = [e.name for e in d.enums]
             rec['enum_full'] = [{'n': e.name, 'e': [x.name for x in e.enumerators]} for e in d.enums]
             rec['dunder'] = [m.name for m in d.dunder_methods]
+            rec['dunder_args'] = [{'n': m.name, 'a': _o_args(m.args)} for m in d.dunder_methods]
             out.append(rec)
         elif isinstance(d, ti.InstantiatedGlobalFunction):
             out.append({'k': 'func', 'n': d.name, 'r': _o_ret(d.return_type), 'a': _o_args(d.args),
